@@ -31,6 +31,8 @@ int64_t G_put, G_emitted, G_pad;
 #define RLE_REC_CAP 64
 uint8_t rle_rec[RLE_REC_CAP];
 size_t rle_rec_len;
+size_t G_zero_rle_pos;
+int G_zero_rle_seen;
 /* number of appends that reported failure (C11: failures must not be lost) */
 unsigned rle_append_failures;
 
@@ -39,9 +41,9 @@ carquet_status_t carquet_buffer_append(carquet_buffer_t *buf, const void *data, 
   __CPROVER_precondition(size == 0 || __CPROVER_r_ok(data, size), "buffer_append: data readable for size bytes");
   if (size == 0) return CARQUET_OK;
 #ifdef RLE_STUB_RECORD
-  /* exact model for the byte-level lemmas: appends never fail, bytes are kept (at most 8 per call) */
-  __CPROVER_precondition(size <= 8, "record stub: appends of at most 8 bytes");
-  for (size_t i = 0; i < 8; i++)
+  /* exact model for the byte-level lemmas: appends never fail, bytes are kept (at most 32 per call) */
+  __CPROVER_precondition(size <= 32, "record stub: appends of at most 32 bytes");
+  for (size_t i = 0; i < 32; i++)
     if (i < size && rle_rec_len + i < RLE_REC_CAP) rle_rec[rle_rec_len + i] = ((const uint8_t *)data)[i];
   rle_rec_len += size;
   return CARQUET_OK;
